@@ -100,6 +100,22 @@ static void op_c05_fix(Exec& x, const Json& op, int)
 		}
 	}
 	int64_t sum_unrec = summary_value(tags, "error_unrecoverable", 0);
+	// -b works on single blocks and prints no per-file status: its report of a block it cannot rebuild is the unrecoverable:
+	// tag (position, disk, file) together with the unrecoverable count and the failing status
+	if (only_bad_blocks && r.exit_code != 0 && sum_unrec > 0)
+		for (auto& t : tags)
+			if (t.f.size() >= 4 && t.f[0] == "unrecoverable") {
+				const DiskCfg* d = x.sb.disk(t.f[2]);
+				if (d) { reported_unrec.insert(d->top + "/" + t.f[3]); mentioned.insert(d->top + "/" + t.f[3]); }
+			}
+	// empty files have no status: line; when fix cannot re-create one (e.g. its name is now a dangling symlink) it names the
+	// file in an "Empty file" error, counts an unrecoverable error and fails: that is a report
+	if (r.exit_code != 0 && sum_unrec > 0)
+		for (auto& t : tags)
+			if (t.f.size() >= 4 && t.f[0] == "error" && t.f[3].find("Empty file") != std::string::npos) {
+				const DiskCfg* d = x.sb.disk(t.f[1]);
+				if (d) { reported_unrec.insert(d->top + "/" + t.f[2]); mentioned.insert(d->top + "/" + t.f[2]); }
+			}
 	// a fix that stops on a fatal error (no summary at all, failing exit) claims nothing about the files it did not report
 	bool aborted = r.exit_code != 0 && (summary_value(tags, "error", -1) < 0 || r.err.find("Stopping at block") != std::string::npos);
 	if (aborted) x.probe("c05.fix_aborted");
@@ -322,9 +338,57 @@ static RunPlan gen_fixsafe_neighbours(uint64_t seed, int tier)
 	return p;
 }
 
+// bad blocks found by a scrub, then fix -e / -b: several bad blocks per file, files fragmented over the parity with blocks of
+// other files of the same disk in between (fix closes and re-opens a file each time it comes back to it)
+static RunPlan gen_fixsafe_badblocks(uint64_t seed, int tier)
+{
+	Rng rng(seed);
+	RunPlan p;
+	p.family = "fixsafe";
+	p.seed = seed;
+	p.cfg = gen_config(rng, 3, 3, true);
+	if (rng.chance(3, 4)) p.cfg.hash_size = 16;
+	p.cfg.autosave_at = 0;
+	(void)tier;
+	unsigned bs = p.cfg.block_size();
+	size_t nd = p.cfg.disks.size();
+	auto sync = [&]() { CmdSpec s; s.cmd = "sync"; s.opts = { "-E", "-Z" }; p.ops.push_back(op_cmd(gen_sched(rng, s), "ok")); };
+	// fragmentation by history: small files, sync, some deleted, sync, larger files that fill the holes and go on elsewhere
+	for (size_t d = 0; d < nd; ++d)
+		for (int i = 0; i < (int)rng.range(2, 4); ++i)
+			p.ops.push_back(Json::obj().set("k", "create").set("d", (int64_t)d).set("name", strf("s%d", i)).set("size", rng.range(1, 3) * bs - (rng.chance(1, 3) ? rng.range(0, bs - 1) : 0)).set("seed", rng.next() >> 1));
+	sync();
+	for (size_t d = 0; d < nd; ++d) {
+		p.ops.push_back(Json::obj().set("k", "delete").set("d", (int64_t)d).set("sub", strf("s%d", (int)rng.below(2))));
+		if (rng.chance(1, 2)) p.ops.push_back(Json::obj().set("k", "delete").set("d", (int64_t)d).set("sub", "s2"));
+	}
+	sync();
+	for (size_t d = 0; d < nd; ++d)
+		for (int i = 0; i < (int)rng.range(1, 2); ++i)
+			p.ops.push_back(Json::obj().set("k", "create").set("d", (int64_t)d).set("name", strf("big%d", i)).set("size", rng.range(4, 9) * bs - (rng.chance(1, 3) ? rng.range(0, bs - 1) : 0)).set("seed", rng.next() >> 1));
+	sync();
+	// silent damage: several blocks, often of the same file and of its neighbours on the same disk
+	int64_t dd = (int64_t)rng.below(nd);
+	int hits = (int)rng.range(2, 5);
+	for (int i = 0; i < hits; ++i)
+		p.ops.push_back(Json::obj().set("k", "silent").set("d", rng.chance(3, 4) ? dd : (int64_t)rng.below(nd)).set("f", (int64_t)rng.below(4)).set("at", rng.next() >> 8));
+	CmdSpec sc;
+	sc.cmd = "scrub";
+	sc.opts = { "-p", "full" };
+	Json so = op_cmd(gen_sched(rng, sc));
+	so.set("no_parity_oracle", 1);
+	p.ops.push_back(so);
+	CmdSpec f;
+	f.cmd = "fix";
+	f.opts = { rng.chance(3, 4) ? "-e" : "-b" };
+	p.ops.push_back(Json::obj().set("k", "c05_fix").set("spec", gen_sched(rng, f).to_json()));
+	return p;
+}
+
 static RunPlan gen_fixsafe(uint64_t seed, int tier)
 {
 	if ((seed % 3) == 0) return gen_fixsafe_neighbours(seed, tier);
+	if ((seed % 5) == 1) return gen_fixsafe_badblocks(seed, tier);
 	Rng rng(seed);
 	RunPlan p;
 	p.family = "fixsafe";
